@@ -10,6 +10,24 @@ TRUST = ("Trusted: TLC, the four pyenv interpreters 3.7.16/3.8.18/3.9.18/3.10.13
          "stated in the evidence file.")
 
 CHECKS = {
+    "C01": dict(
+        technique="TLA+ reference decoder and encoder (Decode, Encode, Lines) with RoundTripModel checked exhaustively by TLC on "
+                  "MC_Decode; model streams and corpus code objects round-tripped on the real library with a strict "
+                  "attribute-by-attribute comparator; TLC trace validation (Trace_Encode, P01.* and M.*)",
+        text="Design level: TLC shows Encode(Decode(c)) = c for every stream of the bounded model in the compilers' domain. "
+             "Implementation level: every corpus code object (quick: seeded sample; thorough: each interpreter's whole "
+             "stdlib at optimize 0/1/2) is round-tripped and compared in every attribute; TLC validates each recorded "
+             "to_code() against the encoder specification.",
+        ref="DESIGN.md 5 C01"),
+    "C03": dict(
+        technique="TLA+ encoder (Encode: tables, jump relaxation loop, assembly, line synthesis, header); TLC exhaustive MC_Relax "
+                  "with liveness (termination), pass bound, monotone sizes, jumps land; every jump graph rebuilt by hand as "
+                  "CodeData and encoded by the real library; guarded hook logs every relaxation pass; TLC trace validation "
+                  "(Trace_Encode) of hand-built, decoded and normalised data against dis/Addr2Line/calling convention",
+        text="TLC proves termination and correct landing of the relaxation loop on all jump graphs within the bounds; the real "
+             "to_code() on those graphs and on decoded/normalised corpus data is recorded (including each pass of the loop) "
+             "and TLC checks that CPython reads the output as the data says and that each pass is the specification's.",
+        ref="DESIGN.md 5 C03"),
     "C02": dict(
         technique="TLA+ model of CPython word code (CPyUnits) and of the library decoder (Decode); TLC exhaustive MC_Decode; "
                   "model streams replayed as real code objects; TLC trace validation (Trace_Decode, clauses P02.*) of the "
